@@ -7,6 +7,7 @@ import (
 	"os/exec"
 	"path/filepath"
 	"regexp"
+	"sort"
 	"strings"
 	"time"
 )
@@ -217,8 +218,15 @@ func sweepReplayFlags(tmpl, testName, rel, cfg, dir string, extra []string) (boo
 	return sweepReplayExtra(tmpl, testName, rel, cfg, dir, extra, nil)
 }
 
+func sweepReplayFile(tmplPath, cacheKey, testName, rel, cfg, dir string) (bool, string) {
+	return sweepReplayImpl(tmplPath, cacheKey, testName, rel, cfg, dir, nil, nil)
+}
+
 func sweepReplayExtra(tmpl, testName, rel, cfg, dir string, extra []string, extraFiles map[string]string) (bool, string) {
-	ck := tmpl + "|" + cfg
+	return sweepReplayImpl(filepath.Join("/verif/oracle", tmpl), tmpl+"|"+cfg, testName, rel, cfg, dir, extra, extraFiles)
+}
+
+func sweepReplayImpl(tmplPath, ck, testName, rel, cfg, dir string, extra []string, extraFiles map[string]string) (bool, string) {
 	if r, ok := sweepCache[ck]; ok {
 		os.WriteFile(filepath.Join(dir, "output.txt"), []byte(r.out), 0o644)
 		return r.ok, r.out
@@ -230,7 +238,7 @@ func sweepReplayExtra(tmpl, testName, rel, cfg, dir string, extra []string, extr
 	}
 	orPath := filepath.Join(dir, "zz_verif_oracle_test.go")
 	os.WriteFile(orPath, []byte(strings.Replace(string(or), "package PKG", "package "+pkgName, 1)), 0o644)
-	tb, err := os.ReadFile(filepath.Join("/verif/oracle", tmpl))
+	tb, err := os.ReadFile(tmplPath)
 	if err != nil {
 		return false, err.Error()
 	}
@@ -311,6 +319,32 @@ func msmSweepReplayer(prop string, ob *Obligation, cfg string, dir string) (bool
 	return ok, desc, firstLines(out, 3)
 }
 
+// modmSweepReplayer: staged / cut C19 harnesses.  The model's limb values are injected into the sweep, which also
+// runs a structured set of inputs.
+func modmSweepReplayer(prop string, ob *Obligation, cfg string, dir string) (bool, string, string) {
+	tb, err := os.ReadFile("/verif/oracle/modm_sweep_test.go.tmpl")
+	if err != nil {
+		return false, err.Error(), ""
+	}
+	var kv []string
+	for k, v := range ob.Model {
+		if strings.HasPrefix(v, "#x") {
+			v = "0x" + v[2:]
+		} else if strings.HasPrefix(v, "#b") {
+			v = "0b" + v[2:]
+		}
+		kv = append(kv, fmt.Sprintf("%q: %q", k, v))
+	}
+	sort.Strings(kv)
+	src := strings.Replace(string(tb), "/*MODEL*/", strings.Join(kv, ", "), 1)
+	tmpl := filepath.Join(dir, "modm_sweep_with_model_test.go.tmpl")
+	os.WriteFile(tmpl, []byte(src), 0o644)
+	delete(sweepCache, "modm|"+cfg+"|"+ob.Name)
+	ok, out := sweepReplayFile(tmpl, "modm|"+cfg+"|"+ob.Name, "TestVerifModmSweep", "internal/modm", cfg, dir)
+	desc := fmt.Sprintf("%s: counterexample to \"%s\" (%s); confirmed on the real scalar arithmetic: %s", ob.Harness, ob.Msg, ob.Pos, firstLines(out, 5))
+	return ok, desc, firstLines(out, 3)
+}
+
 func scalarmultSweepReplayer(prop string, ob *Obligation, cfg string, dir string) (bool, string, string) {
 	ok, out := sweepReplay("scalarmult_sweep_test.go.tmpl", "TestVerifScalarmultSweep", "internal/ge25519", cfg, dir)
 	desc := fmt.Sprintf("%s: counterexample to \"%s\" (%s); confirmed on the real scalar multiplications: %s", ob.Harness, ob.Msg, ob.Pos, firstLines(out, 5))
@@ -387,6 +421,9 @@ func init() {
 	}
 	for _, p := range []string{"vh_C17_multiScalarmult", "vh_C17_bosCoster"} {
 		customReplayers[p] = msmSweepReplayer
+	}
+	for _, p := range []string{"vh_C19_barrett", "vh_C19_Expand64", "vh_C19_Mul"} {
+		customReplayers[p] = modmSweepReplayer
 	}
 	for _, p := range []string{"vh_C16_NielsBase", "vh_C16_nielsSliding", "vh_C16_basepoint", "vh_C16_ScalarmultBase", "vh_C16_DoubleScalarmult"} {
 		customReplayers[p] = scalarmultSweepReplayer
